@@ -86,7 +86,14 @@ func runC04(c *Ctx) {
 func runC12(c *Ctx) {
 	depth := 3
 	ref := Cfg{}
-	others := cfgQuick[1:]
+	// configurations that change constraints (Index 3 declares more unique fields)
+	// change semantics, not storage: they are not part of this comparison
+	var others []Cfg
+	for _, x := range cfgQuick[1:] {
+		if x.Index != 3 {
+			others = append(others, x)
+		}
+	}
 	if c.Tier == "thorough" {
 		depth = 4
 		others = nil
